@@ -177,6 +177,7 @@ DEFAULT_RUN = Contract(
     ],
     result_kind=BOOL,
     frame=["TestNode.should_rerun"],
+    ghost_frame=["scan.calls", "scan.result"],
     props=["C03", "C01", "C08", "C10"],
 )
 
